@@ -14,7 +14,24 @@ usage: asm2tla.py <repo> <out.tla> [<out.json>]      (exit 0 always; the JSON sa
 """
 import json, os, re, sys
 
-REGS = {"AX", "BX", "CX"}
+REGS = {"AX", "BX", "CX", "DX", "SI", "DI"}
+SLOTS = ("S1", "S2")        # local stack slots of the routine (survive a CALL)
+
+# Concrete values are abstracted: 0..3 stand for themselves (0 = free is the only value with a fixed meaning),
+# every other constant that occurs in the sources - e.g. a "held" marker such as 0x4c4f434b - gets its own
+# non-zero class id 10, 11, ...; the same table serves the assembly and the Go side.
+CONSTS = {}
+
+
+def cid(n):
+    n &= 0xFFFFFFFFFFFFFFFF
+    if n <= 3:
+        return n
+    if n not in CONSTS:
+        if len(CONSTS) >= 40:
+            raise ValueError("too many distinct constants")
+        CONSTS[n] = 10 + len(CONSTS)
+    return CONSTS[n]
 NOREC = [{"op": "nop", "d": "AX", "s": "AX", "v": 0, "to": 0}]
 
 
@@ -28,7 +45,8 @@ WIDTH = {"B": 1, "W": 2, "L": 4, "Q": 8}
 
 def split_width(mn):
     """MOVL -> ("MOV", 4); mnemonics without a width suffix -> (mn, 0)"""
-    for base in ("MOV", "XCHG", "TEST", "CMP", "DEC", "INC", "BTS"):
+    for base in ("CMPXCHG", "MOV", "XCHG", "TEST", "CMP", "DEC", "INC", "BTS", "SHL", "SHR", "SAR", "ADD", "SUB", "AND", "OR", "XOR",
+                 "NEG", "NOT", "IMUL", "LEA", "ROL", "ROR"):
         if mn.startswith(base) and mn[len(base):] in WIDTH:
             return base, WIDTH[mn[len(base):]]
     return mn, 0
@@ -41,12 +59,15 @@ def parse_operand(o):
         return ("imm", int(m.group(1), 0))
     if o in REGS:
         return ("reg", o)
-    m = re.fullmatch(r"(?:0)?\((AX|BX|CX)\)", o)
+    m = re.fullmatch(r"(?:0)?\((AX|BX|CX|DX|SI|DI)\)", o)
     if m:
         return ("mem", m.group(1))
     m = re.fullmatch(r"(\w+)\+(\d+)\(FP\)", o)
     if m:
         return ("arg", m.group(1), int(m.group(2)))
+    m = re.fullmatch(r"(?:\w+)?-(\d+)\(SP\)", o)
+    if m:
+        return ("slot", int(m.group(1)))
     m = re.fullmatch(r"[·\w.]*yieldFn(?:\+0)?\(SB\)", o)
     if m:
         return ("yieldfn",)
@@ -57,8 +78,13 @@ def extract_asm(text):
     """-> (prog list, listing) or raises ValueError(reason)"""
     lines = []
     in_fn = False
+    macros = {}
     for raw in text.splitlines():
         line = raw.split("//")[0].strip()
+        m = re.fullmatch(r"#define\s+(\w+)\s+(\S+)", line)
+        if m:
+            macros[m.group(1)] = m.group(2)
+            continue
         if not line or line.startswith("#"):
             continue
         if line.startswith("TEXT"):
@@ -67,11 +93,11 @@ def extract_asm(text):
             if "archAcquireSpinlock" in line:
                 in_fn = True
                 m = re.search(r"\$(\d+)-(\d+)", line)
-                if not m or m.group(2) != "12":
+                if not m or m.group(2) != "12" or int(m.group(1)) > 8 * len(SLOTS):
                     raise ValueError("unexpected frame/argument size in TEXT line: " + line)
             continue
         if in_fn:
-            lines.append(line)
+            lines.append(re.sub(r"\b\w+\b", lambda mm: macros.get(mm.group(0), mm.group(0)), line))
     if not in_fn:
         raise ValueError("TEXT archAcquireSpinlock not found")
     labels, code = {}, []
@@ -90,36 +116,52 @@ def extract_asm(text):
         code.append(("LOCK " if locked else "") + line)
         locked = False
     prog, listing = [], []
-    args = {}
+    slots = {}
     for k, line in enumerate(code):
         lockpfx = line.startswith("LOCK ")
         parts = (line[5:] if lockpfx else line).split(None, 1)
         mn = parts[0].upper()
         ops = [parse_operand(x) for x in parts[1].split(",")] if len(parts) > 1 else []
-        JUMPS = ("JNZ", "JNE", "JZ", "JE", "JEQ", "JMP", "JC", "JCS", "JNC", "JCC")
+        JUMPS = ("JNZ", "JNE", "JZ", "JE", "JEQ", "JMP", "JC", "JCS", "JNC", "JCC", "JHS", "JAE", "JLO", "JB", "JLS", "JBE",
+                 "JHI", "JA", "JLT", "JGE", "JLE", "JGT", "JMI", "JPL", "JOS", "JOC", "JPS", "JPC")
         if mn in JUMPS:
             if len(parts) != 2 or parts[1].strip() not in labels:
                 raise ValueError("jump to unknown label: " + line)
         for o in ops:
             if o[0] == "unknown" and mn not in JUMPS:
                 raise ValueError("operand not understood: " + line)
+        # local stack slots behave like extra registers
+        for k2, o in enumerate(ops):
+            if o[0] == "slot":
+                slots.setdefault(o[1], SLOTS[len(slots)] if len(slots) < len(SLOTS) else None)
+                if slots[o[1]] is None:
+                    raise ValueError("more than %d stack slots: %s" % (len(SLOTS), line))
+                ops[k2] = ("reg", slots[o[1]])
         kinds = tuple(o[0] for o in ops)
         base, w = split_width(mn)
 
         def small(n):
-            if not 0 <= n <= 3:
-                raise ValueError("immediate outside the modelled range 0..3: " + line)
-            return n
-        if lockpfx and base not in ("BTS", "XCHG"):
+            return cid(n)
+        if lockpfx and base not in ("BTS", "XCHG", "CMPXCHG"):
             raise ValueError("LOCK prefix on an instruction outside the dictionary: " + line)
         if mn in ("PAUSE", "NOP") and not ops:
             i = ins("nop")
+        elif base == "CMPXCHG" and w == 4 and kinds == ("reg", "mem") and lockpfx:
+            i = ins("cmpxchg", d=ops[0][1], s=ops[1][1], w=w)      # LOCK CMPXCHGL src, mem (compares with AX)
         elif base == "BTS" and w in (4, 8) and kinds == ("imm", "mem") and ops[0][1] == 0:
             i = ins("lbts" if lockpfx else "bts", s=ops[1][1], w=w)
         elif mn in ("JC", "JCS"):
             i = ins("jc", to=labels[parts[1].strip()])
-        elif mn in ("JNC", "JCC"):
+        elif mn in ("JNC", "JCC", "JHS", "JAE"):
             i = ins("jnc", to=labels[parts[1].strip()])
+        elif mn in ("JLO", "JB"):
+            i = ins("jc", to=labels[parts[1].strip()])
+        elif mn in ("JLS", "JBE"):
+            i = ins("jls", to=labels[parts[1].strip()])
+        elif mn in ("JHI", "JA"):
+            i = ins("jhi", to=labels[parts[1].strip()])
+        elif mn in ("JLT", "JGE", "JLE", "JGT", "JMI", "JPL", "JOS", "JOC", "JPS", "JPC"):
+            i = ins("jnd", to=labels[parts[1].strip()])      # sign/overflow/parity flags are not modelled: either way
         elif mn == "RET" and not ops:
             i = ins("ret")
         elif mn == "MOVQ" and kinds == ("arg", "reg"):
@@ -150,6 +192,13 @@ def extract_asm(text):
             i = ins("test", d=ops[0][1], w=w)
         elif base == "CMP" and w in (4, 8) and kinds == ("reg", "imm"):
             i = ins("cmpi", d=ops[0][1], v=small(ops[1][1]), w=w)
+        elif base in ("CMP", "TEST") and w in (4, 8) and kinds == ("reg", "reg"):
+            i = ins("flags")         # flags of a register/register comparison: not modelled, any outcome
+        elif base in ("SHL", "SHR", "SAR", "ADD", "SUB", "AND", "OR", "XOR", "IMUL", "ROL", "ROR") and w in (4, 8) \
+                and kinds in (("imm", "reg"), ("reg", "reg")):
+            i = ins("havoc", d=ops[1][1])   # local computation on a register / stack slot: any small value, any flags
+        elif base in ("NEG", "NOT") and w in (4, 8) and kinds == ("reg",):
+            i = ins("havoc", d=ops[0][1])
         elif base == "CMP" and w and kinds == ("mem", "imm"):
             i = ins("cmpm", s=ops[0][1], v=small(ops[1][1]), w=w)
         elif base == "DEC" and w in (4, 8) and kinds == ("reg",):
@@ -162,12 +211,17 @@ def extract_asm(text):
             i = ins("jz", to=labels[parts[1].strip()])
         elif mn == "JMP":
             i = ins("jmp", to=labels[parts[1].strip()])
-        elif mn == "CALL" and kinds in (("mem",), ("reg",)):
+        elif mn == "CALL" and kinds == ("mem",):
             i = ins("call", s=ops[0][1])
+        elif mn == "CALL" and kinds == ("reg",):
+            i = ins("callr", s=ops[0][1])
         else:
             raise ValueError("instruction (or operand width) outside the dictionary: " + line)
         prog.append(i)
         listing.append("%2d  %s" % (k + 1, line))
+    for k, i in enumerate(prog):       # CMP whose carry is consumed: the carry outcome is not modelled
+        if i["op"] == "cmpi" and k + 1 < len(prog) and prog[k + 1]["op"] in ("jc", "jnc", "jls", "jhi"):
+            i["op"] = "cmpc"
     if not prog:
         raise ValueError("empty routine")
     if len(prog) > 40:
@@ -251,21 +305,35 @@ class GoCompiler:
     def place(self, lab):
         self.code.append({"label": lab})
 
+    def raw(self):
+        """an integer literal or a package-level constant"""
+        tk = self.peek()
+        if tk[0] == "id" and tk[1] in GOCONSTS:
+            self.take()
+            return GOCONSTS[tk[1]]
+        if tk[0] == "id" and tk[1] == "uint32" and self.peek(1) == ("p", "("):
+            self.take()
+            self.take()
+            n = self.raw()
+            self.take("p", ")")
+            return n
+        return self.take("num")[1]
+
     def num(self):
-        n = self.take("num")[1]
-        if not 0 <= n <= 3:
-            raise ValueError("constant outside the modelled range 0..3: %d" % n)
-        return n
+        return cid(self.raw())
 
     def delta(self):
         """second argument of atomic.AddUint32: a small constant or ^uint32(n) (= -(n+1))"""
         if self.accept("^"):
             self.take("id", "uint32")
             self.take("p", "(")
-            n = self.num()
+            n = self.raw()
             self.take("p", ")")
             return -(n + 1)
-        return self.num()
+        n = self.raw()
+        if n > 3:
+            raise ValueError("atomic add of a constant outside the modelled range 0..3")
+        return n
 
     def lockaddr(self):
         self.take("p", "&")
@@ -351,6 +419,14 @@ class GoCompiler:
     def simple(self):
         """assignment / call statements"""
         tk = self.peek()
+        if tk == ("id", "_") and self.peek(1) == ("p", "="):      # _ = expr: evaluated for its effect
+            self.take()
+            self.take()
+            if self.peek() == ("id", "atomic.CompareAndSwapUint32"):
+                self.cond()
+            else:
+                self.value()
+            return
         if tk[0] == "id" and self.peek(1) == ("p", ":="):
             name = self.take()[1]
             self.take()
@@ -382,7 +458,7 @@ class GoCompiler:
             self.take("p", "(")
             self.lockaddr()
             self.take("p", ",")
-            n = self.take("num")[1]
+            n = self.raw()
             self.take("p", ")")
             self.emit("tail", v=min(n, 3))
             return
@@ -468,6 +544,16 @@ def link(code, base):
     return out
 
 
+GOCONSTS = {}
+
+
+def go_consts(src):
+    """package-level integer constants:  name [type] = literal"""
+    GOCONSTS.clear()
+    for m in re.finditer(r"^\s*(?:const\s+)?(\w+)(?:\s+u?int\d*)?\s*=\s*(0x[0-9a-fA-F]+|\d+)\s*(?://.*)?$", src, re.M):
+        GOCONSTS[m.group(1)] = int(m.group(2), 0)
+
+
 def compile_method(src, name, boolean):
     toks = tokenize(func_body(src, name))
     toks = [t for t in toks]
@@ -476,6 +562,7 @@ def compile_method(src, name, boolean):
 
 def extract_go(src):
     out, notes = {}, []
+    go_consts(src)
     for key, name, boolean in (("acq", "Acquire", False), ("try", "TryToAcquire", True), ("rel", "Release", False)):
         try:
             out[key] = compile_method(src, name, boolean)
@@ -498,6 +585,7 @@ def tla_rec(d):
 
 
 def extract(repo):
+    CONSTS.clear()
     res = {"notes": [], "prog": [], "listing": [], "entry": {"acq": 0, "try": 0, "rel": 0}}
     asm = None
     try:
